@@ -2,26 +2,10 @@
    reduced after every addition) equals the GENERATED get_value of each target, for all inputs (== on the rational). *)
 From Coq Require Import List ZArith QArith Qminmax Bool String Lia Lqa Arith Setoid Morphisms.
 From V.Model Require Import Greedy TargetsRt Targets.
-From V.Proofs Require Import DamageMono StatLaws TargetsGen TargetsHyper TargetsMask.
+From V.Proofs Require Import DamageMono StatLaws TargetsLogic TargetsGen TargetsHyper TargetsMask.
 From G Require Import CoreQ Targets.
 Import ListNotations.
 Open Scope Q_scope.
-
-#[local] Instance Qmin_proper : Proper (Qeq ==> Qeq ==> Qeq) Qmin.
-Proof. intros a a' Ha b b' Hb. apply Q.min_compat; assumption. Qed.
-
-(* get_damage_factor of every logic depends on the block only through the values of its fields *)
-Lemma logic_df_proper L a b armor : Stat_seq a b -> logic_df L a armor == logic_df L b armor.
-Proof.
-  unfold Stat_seq. intros H. repeat match goal with H : _ /\ _ |- _ => destruct H end.
-  destruct L; cbn [logic_df];
-  [ unfold STRBasedDamageLogic_get_damage_factor; unf_STR
-  | unfold INTBasedDamageLogic_get_damage_factor; unf_INT
-  | unfold DEXBasedDamageLogic_get_damage_factor; unf_DEX
-  | unfold LUKBasedDamageLogic_get_damage_factor; unf_LUK
-  | unfold LUKBasedDualSubDamageLogic_get_damage_factor; unf_Dual ];
-  repeat match goal with H : _ == _ |- _ => rewrite H; clear H end; reflexivity.
-Qed.
 
 Lemma stat_red_seq s : Stat_seq (stat_red s) s.
 Proof. unfold Stat_seq, stat_red, S_. cbn. repeat split; apply Qred_correct. Qed.
